@@ -37,6 +37,7 @@
 
 #include <fcntl.h>
 #include <sys/mman.h>
+#include <sys/resource.h>
 #include <sys/wait.h>
 
 using Bytes = std::vector<unsigned char>;
@@ -690,6 +691,8 @@ static void RunCase(ck::Node& n, const Pool& pool, const CaseSpec& c, int fd, bo
         (void)!write(fd, out.data(), out.size());
         return;
     }
+    double tm0 = vx::elapsed();
+    if (verbose) printf("t realize done %.3f\n", tm0);
     ref::Verdict rv = ref::Judge(pristine, height, [&](const COutPoint& op) -> const Bytes* { auto it = pool.spk_of.find(op); return it == pool.spk_of.end() ? nullptr : &it->second; });
     if (c.want_cost >= 0 && rv.cost != c.want_cost) { out += "H\t" + c.name + "\tconstruction missed the sigop target: ref cost " + std::to_string(rv.cost) + "\n"; }
     if (c.want_weight >= 0 && rv.weight != c.want_weight) { out += "H\t" + c.name + "\tconstruction missed the weight target: ref weight " + std::to_string(rv.weight) + "\n"; }
@@ -705,6 +708,7 @@ static void RunCase(ck::Node& n, const Pool& pool, const CaseSpec& c, int fd, bo
         for (auto& tx : pristine.vtx) impl_cost += GetTransactionSigOpCost(*tx, view, SCRIPT_VERIFY_P2SH | SCRIPT_VERIFY_WITNESS);
         if (impl_cost != rv.cost) V("C06-sigopcost-mismatch:" + c.name.substr(0, c.name.find("/cost")), "sum GetTransactionSigOpCost=" + std::to_string(impl_cost) + " reference=" + std::to_string(rv.cost));
     }
+    if (verbose) printf("t judge+api %.3f\n", vx::elapsed() - tm0);
     // (1) TestBlockValidity
     BlockValidationState ts;
     {
@@ -717,12 +721,14 @@ static void RunCase(ck::Node& n, const Pool& pool, const CaseSpec& c, int fd, bo
         V("C06-tbv-verdict:" + fam_key, std::string("TestBlockValidity says ") + (ts.IsValid() ? "valid" : "invalid (" + ts.GetRejectReason() + ")") + ", reference says " + (rv.ok ? "acceptable" : "must be rejected: " + Join(rv.reasons)) + " [weight=" + std::to_string(rv.weight) + " stripped=" + std::to_string(rv.stripped) + " sigopcost=" + std::to_string(rv.cost) + "]");
     else if (!rv.ok && !rv.reasons.count(ts.GetRejectReason()))
         V("C06-tbv-reason:" + fam_key, "TestBlockValidity rejects with '" + ts.GetRejectReason() + "', the violated rule(s) are " + Join(rv.reasons));
+    if (verbose) printf("t tbv %.3f\n", vx::elapsed() - tm0);
     // (2) ProcessNewBlock
     CBlock b2 = pristine;
     uint256 tip_before = n.tip()->GetBlockHash();
     ck::BlockResult r = n.ProcessBlock(b2, /*force=*/true);
     uint256 tip_after = n.tip()->GetBlockHash();
     bool accepted = tip_after == pristine.GetHash();
+    if (verbose) printf("t pnb %.3f\n", vx::elapsed() - tm0);
     if (accepted != rv.ok)
         V("C06-pnb-verdict:" + fam_key, std::string("ProcessNewBlock ") + (accepted ? "connected the block" : "did not connect the block (" + r.reason + ")") + ", reference says " + (rv.ok ? "acceptable" : "must be rejected: " + Join(rv.reasons)) + " [weight=" + std::to_string(rv.weight) + " stripped=" + std::to_string(rv.stripped) + " sigopcost=" + std::to_string(rv.cost) + "]");
     else if (!rv.ok) {
@@ -733,10 +739,12 @@ static void RunCase(ck::Node& n, const Pool& pool, const CaseSpec& c, int fd, bo
         if (!r.checked || !r.valid || !r.pnb_ret || !r.new_block) V("C06-pnb-accept-flags:" + fam_key, "block connected but pnb_ret/new_block/BlockChecked(valid) not all set");
     }
     char buf[600];
-    snprintf(buf, sizeof buf, "R\t%s\t%s\t%d\t%lld\t%lld\t%lld\t%s\t%s\t%d\n", c.family.c_str(), c.name.c_str(), rv.ok ? 1 : 0, (long long)rv.weight, (long long)rv.stripped, (long long)rv.cost,
-             ts.IsValid() ? "valid" : ts.GetRejectReason().c_str(), accepted ? "connected" : r.reason.c_str(), (int)pristine.vtx.size());
+    struct rusage ru;
+    getrusage(RUSAGE_SELF, &ru);
+    long cpu_ms = (ru.ru_utime.tv_sec + ru.ru_stime.tv_sec) * 1000 + (ru.ru_utime.tv_usec + ru.ru_stime.tv_usec) / 1000;
+    snprintf(buf, sizeof buf, "R\t%s\t%s\t%d\t%lld\t%lld\t%lld\t%s\t%s\t%d\t%ld\n", c.family.c_str(), c.name.c_str(), rv.ok ? 1 : 0, (long long)rv.weight, (long long)rv.stripped, (long long)rv.cost,
+             ts.IsValid() ? "valid" : ts.GetRejectReason().c_str(), accepted ? "connected" : r.reason.c_str(), (int)pristine.vtx.size(), cpu_ms);
     out += buf;
-    if (verbose) printf("%s", out.c_str());
     (void)!write(fd, out.data(), out.size());
 }
 
@@ -746,6 +754,7 @@ struct Totals {
     std::set<std::string> reasons_seen;
     std::set<int64_t> costs, weights;
     vx::Distinct distinct;
+    std::map<std::string, long> cpu_ms; // diagnostics only (stdout)
     bool harness_error{false};
 };
 
@@ -772,7 +781,7 @@ static void RunAll(ck::Node& n, const Pool& pool, const std::vector<CaseSpec>& c
                 if (vx::deadline_reached()) { std::string l = "D\t" + cases[i].name + "\n"; (void)!write(fd, l.data(), l.size()); continue; }
                 pid_t g;
                 while ((g = fork()) < 0) usleep(20000);
-                if (g == 0) { RunCase(n, pool, cases[i], fd, false); _exit(0); }
+                if (g == 0) { RunCase(n, pool, cases[i], fd, getenv("VX_VERBOSE") != nullptr); _exit(0); }
                 int st = 0;
                 waitpid(g, &st, 0);
                 if (!WIFEXITED(st) || WEXITSTATUS(st) != 0) {
@@ -808,6 +817,7 @@ static void RunAll(ck::Node& n, const Pool& pool, const std::vector<CaseSpec>& c
             if (p[1] == "sigops") T.costs.insert(atoll(p[6].c_str()));
             if (p[1] == "weight") T.weights.insert(atoll(p[4].c_str()));
             T.distinct.add(p[1] + "|" + p[2]);
+            if (p.size() > 10) T.cpu_ms[p[1]] += atol(p[10].c_str());
             if (T.cases % 37 == 1) vx::ev().sample(p[2] + " -> ref " + (ok ? "accept" : "reject") + " weight=" + p[4] + " stripped=" + p[5] + " sigopcost=" + p[6] + " TBV=" + p[7] + " PNB=" + p[8] + " ntx=" + p[9]);
         }
     }
@@ -835,6 +845,7 @@ int main(int argc, char** argv)
     {
         ck::NodeOpts o;
         o.check_block_index = false;
+        o.min_validation_cache = true; // small process image: cheap fork()
         ck::Node node(o);
         ck::RefLedger L;
         L.AddGenesis(Params().GenesisBlock());
@@ -851,14 +862,16 @@ int main(int argc, char** argv)
                 CBlock b = ck::MakeBlock(node, node.tip(), {});
                 if (!node.ProcessBlock(b).pnb_ret || node.tip()->GetBlockHash() != b.GetHash()) throw std::runtime_error("base block rejected");
             }
-            if (!only.empty() && !cases.empty()) { RunCase(node, empty, cases[0], 1, false); return 0; }
+            if (!only.empty() && !cases.empty()) { RunCase(node, empty, cases[0], 1, true); return 0; }
             RunAll(node, empty, cases, workers, T);
             bip34_heights++;
         }
     }
     // ---------------------------------------------------------------- phase B: structure, weight, sigops on a funded base
     {
-        ck::Node node;
+        ck::NodeOpts o;
+        o.min_validation_cache = true;
+        ck::Node node(o);
         ck::RefLedger L;
         L.AddGenesis(Params().GenesisBlock());
         SetMockTime(Params().GenesisBlock().nTime + 600 * 100000);
@@ -906,8 +919,9 @@ int main(int argc, char** argv)
             if (!r.pnb_ret || node.tip()->GetBlockHash() != fb.GetHash()) throw std::runtime_error("funding block rejected: " + r.reason);
             E.set("pool_outputs", (uint64_t)flat.size());
         }
+        if (const char* fam = getenv("VX_FAMILY")) { std::vector<CaseSpec> c2; for (auto& c : cases) if (c.family == fam) c2.push_back(c); cases = c2; }
         if (!only.empty()) {
-            for (auto& c : cases) if (c.name == only) { RunCase(node, pool, c, 1, false); return 0; }
+            for (auto& c : cases) if (c.name == only) { RunCase(node, pool, c, 1, true); return 0; }
             printf("case not found\n");
             return 2;
         }
@@ -941,6 +955,7 @@ int main(int argc, char** argv)
         for (int64_t c : {79996, 79999, 80000, 80001, 80004}) if (!T.costs.count(c)) { printf("HARNESS-ERROR C06 sigop cost %lld never constructed\n", (long long)c); bad = true; }
         for (int64_t w : {3999999, 4000000, 4000001, 4000002, 4000003, 4000004}) if (!T.weights.count(w)) { printf("HARNESS-ERROR C06 weight %lld never constructed\n", (long long)w); bad = true; }
     }
+    for (auto& [k, ms] : T.cpu_ms) printf("cpu in case processes: %s %ld ms\n", k.c_str(), ms);
     int rc = vx::finish();
     if (bad && rc == 0) return 2;
     return rc;
